@@ -51,14 +51,14 @@ pub fn c02_runs(tier: Tier) -> Vec<(HistCfg, Caps)> {
                 for d in [1usize, 2, 3] {
                     runs.push((
                         cfg(m, d, 5, b.clone(), vec![5, 2], obs.clone(), &format!("{}-d{d}", m.short())),
-                        caps(tier, 0, 150),
+                        caps(tier, 0, 90),
                     ));
                 }
                 let bw = build_menu(&[Some(2)], &[Some(1), Some(2)], 1);
                 for d in [17usize, 33, 65] {
                     runs.push((
                         cfg(m, d, 5, bw.clone(), vec![5, 1], obs.clone(), &format!("{}-d{d}-wide", m.short())),
-                        caps(tier, 0, 60),
+                        caps(tier, 0, 30),
                     ));
                 }
             }
@@ -101,18 +101,18 @@ pub fn c04_runs(tier: Tier) -> Vec<(HistCfg, Caps)> {
                 for d in [2usize, 3] {
                     runs.push((
                         cfg(m, d, 6, b.clone(), vec![6, 2], obs.clone(), &format!("{}-d{d}", m.short())),
-                        caps(tier, 0, 150),
+                        caps(tier, 0, 90),
                     ));
                 }
                 let small = build_menu(&[Some(2)], &[Some(1), Some(2)], 1);
                 runs.push((
                     cfg(m, 2, 5, small.clone(), vec![5, 1, 1], obs.clone(), &format!("{}-d2-R3", m.short())),
-                    caps(tier, 0, 90),
+                    caps(tier, 0, 60),
                 ));
                 for d in [17usize, 65, 130] {
                     runs.push((
                         cfg(m, d, 5, small.clone(), vec![5, 1], obs.clone(), &format!("{}-d{d}-wide", m.short())),
-                        caps(tier, 0, 60),
+                        caps(tier, 0, 30),
                     ));
                 }
             }
@@ -164,20 +164,20 @@ pub fn c15_runs(tier: Tier) -> Vec<(HistCfg, Caps)> {
                         let b = build_menu(&[None, Some(1), Some(2), Some(5)], &[cap], 2);
                         runs.push((
                             cfg(m, d, 6, b, vec![6, 2], obs.clone(), &format!("{}-d{d}-cap{:?}", m.short(), cap)),
-                            caps(tier, 0, 60),
+                            caps(tier, 0, 20),
                         ));
                     }
                     // many trees, small growth and shrink of the requested count
                     let b = build_menu(&[Some(7), Some(6), Some(20), Some(17)], &[Some(1)], 1);
                     runs.push((
                         cfg(m, d, 4, b, vec![4, 1, 0], obs.clone(), &format!("{}-d{d}-many-trees", m.short())),
-                        caps(tier, 0, 60),
+                        caps(tier, 0, 20),
                     ));
                     // mixed capacities (the bucket bound is then not judged) with three rounds
                     let b = build_menu(&[None, Some(1), Some(3)], &[None, Some(1)], 1);
                     runs.push((
                         cfg(m, d, 5, b, vec![5, 1, 1], obs.clone(), &format!("{}-d{d}-R3", m.short())),
-                        caps(tier, 0, 60),
+                        caps(tier, 0, 20),
                     ));
                 }
             }
@@ -221,7 +221,7 @@ pub fn c03_runs(tier: Tier) -> Vec<(HistCfg, Caps)> {
                 for d in [1usize, 2, 3] {
                     runs.push((
                         cfg(m, d, 5, b.clone(), vec![5, 1], obs.clone(), &format!("{}-d{d}", m.short())),
-                        caps(tier, 0, 120),
+                        caps(tier, 0, 80),
                     ));
                 }
             }
